@@ -73,6 +73,8 @@ def parse_enums(src):
                    and len({o for o, _ in e["from"]}) == len(vs))
         if not e["ok"]:
             sys.stderr.write("translate_packets: enum %s: conversion impls not understood\n" % name)
+        else:
+            e["from"] = sorted(e["from"])     # the ordinals are distinct: the order of the arms does not matter
     return enums
 
 # ---------------------------------------------------------------- packets
@@ -94,6 +96,16 @@ def parse_struct_fields(body):
     for m in re.finditer(r"pub (\w+)\s*:\s*([^,]+),", body):
         fields.append((m.group(1), m.group(2).strip()))
     return fields
+
+def match_brace_paren(s, i):
+    """index of the parenthesis closing the one at s[i]"""
+    d = 0
+    for j in range(i, len(s)):
+        if s[j] == "(": d += 1
+        elif s[j] == ")":
+            d -= 1
+            if d == 0: return j
+    return -1
 
 def split_stmts(body):
     """split a block body into top-level statements (ends at ';' or at a closing '}' of a
@@ -136,22 +148,70 @@ def parse_write(body, fields, enums, aliases):
                 if a.endswith(suf): a = a[:-len(suf)].strip(); changed = True
         if a in locals_: return "self." + locals_[a]
         return a
+    env = {}        # local name -> expression over self.* (from `let x[: T] = <expr>;`), substituted textually
+    def strip_parens(a):
+        a = a.strip()
+        while a.startswith("(") and a.endswith(")") and match_brace_paren(a, 0) == len(a) - 1:
+            a = a[1:-1].strip()
+        return a
+    def subst(expr):
+        def rep(m):
+            n = m.group(1)
+            if n in env: return "(" + env[n] + ")"
+            if n in locals_: return "self." + locals_[n]
+            return n
+        # identifiers not preceded by `.` or `::` and not followed by `(` / `::` (calls, paths)
+        return re.sub(r"(?<![\w.:])([a-z_]\w*)\b(?!\s*(?:\(|::))", rep, expr)
+    def canon(a):
+        # bring an expression over one field into one of: self.f | self.f.0 | self.f.into() | VarInt::from(self.f) | self.f.is_some() | N
+        prev = None
+        a = a.strip()
+        while prev != a:
+            prev = a
+            a = strip_parens(a)
+            a = re.sub(r"^[*&]+\s*", "", a)
+            a = re.sub(r"(?<![\w>])\(\s*[*&]*\s*(self\.\w+(?:\.0)?)\s*\)", r"\1", a)
+            a = re.sub(r"[*&]+\s*(self\.\w+)", r"\1", a)
+            a = re.sub(r"(self\.\w+)\.(?:as_str|as_slice|as_ref|clone|to_owned|as_bytes)\(\)", r"\1", a)
+            a = re.sub(r"^VarInt::from\(\s*(.*)\s*\)$", lambda m: "VarInt::from(" + canon(m.group(1)) + ")", a)
+            a = re.sub(r"^(.*)\.into\(\)$", lambda m: canon(m.group(1)) + ".into()", a)
+            a = re.sub(r"^Into::<VarInt>::into\((.*)\)$", lambda m: canon(m.group(1)) + ".into()", a)
+            a = re.sub(r"^(.*) as VarInt$", lambda m: "VarInt::from(" + canon(m.group(1)) + ")", a)
+        return a
     while i < len(stmts):
         s = stmts[i]
         if s in ("Ok(())",):
             i += 1; continue
+        ml = re.fullmatch(r"let (\w+)(?: ?: ?[&\w:<>\[\]; ']+)? = (.*);", s)
+        if ml and "buffer." not in ml.group(2) and not re.match(r"(?:Self|[A-Z]\w*) \{", ml.group(1)):
+            env[ml.group(1)] = canon(subst(ml.group(2)))
+            i += 1; continue
+        # match <opt> { Some(x) => { write_bool(true); write_K(x); } None => { write_bool(false); } } (arms in any order)
+        mm = re.fullmatch(r"match (.+?) \{ (.*) \}", s)
+        if mm:
+            scrut = canon(subst(mm.group(1))); arms = mm.group(2)
+            a_some = re.search(r"Some\((\w+)\) => \{ buffer\.write_bool\(true\)\.await\?; buffer\.write_(\w+)\(&?\*?(\w+)\)\.await\?; \}", arms)
+            a_none = re.search(r"None => \{ buffer\.write_bool\(false\)\.await\?; \}|None => buffer\.write_bool\(false\)\.await\?,", arms)
+            mf = re.fullmatch(r"self\.(\w+)", scrut)
+            if a_some and a_none and mf and a_some.group(1) == a_some.group(3) and a_some.group(2) in WRITE_KINDS:
+                rest_ = arms.replace(a_some.group(0), "").replace(a_none.group(0), "").strip(" ,")
+                if rest_ == "":
+                    ops.append((mf.group(1), "KOpt " + WRITE_KINDS[a_some.group(2)])); i += 1; continue
+            raise Unparsed("write statement: " + s)
         md = re.fullmatch(r"let (?:Self|\w+) \{ (.*?),? \} = \*?&?self;", s)
         if md:
             for part in [x.strip() for x in md.group(1).split(",") if x.strip() and x.strip() != ".."]:
                 if ":" in part:
                     f, l = [x.strip() for x in part.split(":", 1)]
+                    mt_ = re.fullmatch(r"[A-Z]\w*\((\w+)\)", l)
+                    if mt_: env[mt_.group(1)] = "self." + f + ".0"; continue
                     locals_[re.sub(r"^(ref|mut)\s+", "", l)] = f
                 else:
                     locals_[re.sub(r"^(ref|mut)\s+", "", part)] = re.sub(r"^(ref|mut)\s+", "", part)
             i += 1; continue
         m = re.fullmatch(r"buffer\.write_(\w+)\((.*)\)\.await\?;", s)
         if m:
-            k, arg = m.group(1), m.group(2).strip()
+            k, arg = m.group(1), canon(subst(m.group(2).strip()))
             # normalise: VarInt::from(<field>) / <field>.into() / plain field, with the field spelled in any way
             mi = re.fullmatch(r"(.*)\.into\(\)", arg)
             mv = re.fullmatch(r"VarInt::from\((.*)\)", arg)
@@ -186,6 +246,8 @@ def parse_write(body, fields, enums, aliases):
             ma = re.fullmatch(r"self\.(\w+)\.into\(\)", arg)
             if ma and k == "varint":
                 f = ma.group(1); t = ftypes.get(f)
+                if t == "u16":
+                    ops.append((f, "KVarIntU16")); i += 1; continue
                 if t not in enums: raise Unparsed("into() on non-enum field %s: %s" % (f, t))
                 if not enums[t].get("ok", True): raise Unparsed("enum %s: conversion impls not understood" % t)
                 ops.append((f, "KEnum %s_tbl" % t)); i += 1; continue
@@ -198,7 +260,7 @@ def parse_write(body, fields, enums, aliases):
             ma = re.fullmatch(r"-?\d+", arg)
             if ma and k == "varint":
                 ops.append(("_const", "KConstVarInt (%s)" % arg)); i += 1; continue
-            raise Unparsed("write argument: " + s)
+            raise Unparsed("write argument: " + s + " [" + arg + "]")
         raise Unparsed("write statement: " + s)
     return ops
 
@@ -216,6 +278,15 @@ def parse_read(body, fields, enums, aliases):
         if m:
             ctor = m.group(2) or ""
             i += 1; continue
+        # `let packet = Name { .. };` ... `Ok(packet)`
+        m = re.fullmatch(r"let (\w+)(?: ?: ?\w+)? = (?:Self|[A-Z]\w*)( \{(.*)\})?;", s)
+        if m and i + 1 < len(stmts) and stmts[i + 1] == "Ok(%s)" % m.group(1):
+            ctor = m.group(3) or ""
+            i += 2; continue
+        # `let Ok(x) = T::try_from(y) else { return Err(Error::ArrayConversionFailed); };` on the bytes bound just before
+        m = re.fullmatch(r"let Ok\((\w+)\) = \w+::try_from\((\w+)\) else \{ return Err\(Error::ArrayConversionFailed\); \};", s)
+        if m and binds and binds[-1] == (m.group(2), "KBytes"):
+            binds[-1] = (m.group(1), "BYTESN"); i += 1; continue
         m = re.fullmatch(r"let mut (\w+) = None;", s)
         if m:
             pending_opt[m.group(1)] = True; i += 1; continue
@@ -256,6 +327,28 @@ def parse_read(body, fields, enums, aliases):
             mr = re.fullmatch(r"buffer \.read_bytes\(\) \.await\? \.try_into\(\) \.map_err\(\|_\| Error::ArrayConversionFailed\)\?", rhs)
             if mr:
                 binds.append((name, "BYTESN")); i += 1; continue
+            # `?` spelled out: `let r = buffer.read_K().await;` `let x = match r { Ok(v) => v, Err(e) => return Err(..) };`
+            mr = re.fullmatch(r"buffer\.read_(\w+)\(\)\.await", rhs)
+            if mr and mr.group(1) in WRITE_KINDS and i + 1 < len(stmts):
+                m2 = re.fullmatch(r"let (\w+)(?: ?: ?[\w:<>]+)? = match " + name + r" \{ Ok\((\w+)\) => (\w+), Err\((\w+)\) => return Err\((?:Error::from\(\4\)|\4\.into\(\)|\4)\),? \};", stmts[i + 1])
+                if m2 and m2.group(2) == m2.group(3):
+                    k = mr.group(1)
+                    if k == "bool": flag_vars[m2.group(1)] = True
+                    binds.append((m2.group(1), WRITE_KINDS[k])); i += 2; continue
+            # optional as one expression: `match buffer.read_bool().await? { true => { let b = buffer.read_K().await?; Some(b) } false => None, }`
+            mr = re.fullmatch(r"match buffer\.read_bool\(\)\.await\? \{ (.*) \}", rhs)
+            if mr:
+                arms = mr.group(1)
+                a_t = re.search(r"true => (?:\{ let (\w+) = buffer\.read_(\w+)\(\)\.await\?; Some\(\1\) \}|Some\(buffer\.read_(\w+)\(\)\.await\?\)),?", arms)
+                a_f = re.search(r"false => None,?", arms)
+                if a_t and a_f and arms.replace(a_t.group(0), "").replace(a_f.group(0), "").strip() == "":
+                    k = a_t.group(2) or a_t.group(3)
+                    if k in WRITE_KINDS:
+                        binds.append((name, "KOpt " + WRITE_KINDS[k])); i += 1; continue
+            # a newtype wrapped around the value bound just before: `let y = Wrapper(x);`
+            mr = re.fullmatch(r"[A-Z]\w*\((\w+)\)", rhs)
+            if mr and binds and binds[-1][0] == mr.group(1):
+                binds[-1] = (name, binds[-1][1]); i += 1; continue
             mr = re.fullmatch(r"(\w+)\(buffer\.read_(\w+)\(\)\.await\?\)", rhs)
             if mr and mr.group(2) in WRITE_KINDS:
                 binds.append((name, WRITE_KINDS[mr.group(2)])); i += 1; continue
@@ -267,6 +360,10 @@ def parse_read(body, fields, enums, aliases):
     for part in [p.strip() for p in ctor.split(",") if p.strip()]:
         if ":" in part:
             f, e = [x.strip() for x in part.split(":", 1)]
+            mi_ = re.fullmatch(r"buffer\.read_(\w+)\(\)\.await\?", e)
+            if mi_ and mi_.group(1) in WRITE_KINDS:
+                # evaluated in the order the fields are written in the constructor: after every earlier binding
+                binds.append(("__inline_" + f, WRITE_KINDS[mi_.group(1)])); local2field["__inline_" + f] = f; continue
             if not re.fullmatch(r"\w+", e): raise Unparsed("constructor expr: " + part)
             local2field[e] = f
         else:
